@@ -465,6 +465,35 @@ def check_case(case, ev=None):
         raise Failure(case, "model renders %r but mako raised %s: %s\n%s" % (exp, type(e).__name__, str(e)[:200], shown), "raised:" + type(e).__name__)
     if out != exp:
         raise Failure(case, "mako rendered %r, chain model %r\n%s" % (out, exp, shown), "output-differs")
+    # one Template object, another parent: a level that names its parent by an expression is rendered again with a
+    # different base-most template (declaring every member name), then once more with the original one
+    dyn_levels = [j for j, lv in enumerate(case["levels"][:-1]) if lv.get("inherit") in ("dyn", "dynrel")]
+    if dyn_levels:
+        import copy
+        import posixpath
+
+        j = dyn_levels[0]
+        lv = case["levels"]
+        altbase = {"defs": {d: [["text", "(ALT.%s)" % d]] for d in DEFS}, "attrs": {a: "ALT.%s" % a for a in ATTRS},
+                   "body": [["text", "[ALT:"]] + [["block", b, [["text", "(ALT.%s)" % b]]] for b in BLOCKS] + [["body", "next", {}], ["text", "]"]],
+                   "page": False, "inherit": None, "dir": lv[j + 1].get("dir", "")}
+        alt = copy.deepcopy(case)
+        alt["levels"] = alt["levels"][:j + 1] + [altbase]
+        alt_uri = "%s/%salt%d.html" % ("/c06_%d" % k, altbase["dir"], j)
+        lookup.put_string(alt_uri, emit_level(alt, j + 1, uris[:j + 1] + [alt_uri, uris[-1]]))
+        ctx2 = dict(ctx)
+        key = "%sdyn%d" % (case.get("pfx", ""), j)
+        ctx2[key] = posixpath.relpath(alt_uri, posixpath.dirname(uris[j])) if lv[j]["inherit"] == "dynrel" else alt_uri
+        exp2 = Model(alt).render()
+        for which, c_, e_ in (("another parent", ctx2, exp2), ("the first parent again", ctx, exp)):
+            try:
+                out2 = lookup.get_template(uris[0]).render_unicode(**c_)
+            except Exception as e:
+                raise Failure(case, "re-rendered with %s (level %d inherits ${..}): model %r, mako raised %s: %s\n%s"
+                              % (which, j, e_, type(e).__name__, str(e)[:200], shown), "dynamic-parent-rerender:raised")
+            if out2 != e_:
+                raise Failure(case, "re-rendered with %s (level %d inherits ${..} = %r): mako %r, chain model %r\n%s"
+                              % (which, j, c_[key], out2, e_, shown), "dynamic-parent-rerender")
     if ev is not None:
         f = features(case)
         nt = (f["n"] >= 3 and f["nonadj"]) or f["nested_override"]
